@@ -171,8 +171,8 @@ def mk(n, obj, rows, var_kinds, x0_idx=2, tight=True, fmt="coo", policy="fresh",
 
 
 CUSTOM_SCALINGS = [
-    {"type": "custom", "vw": [1, -2, 3, -1], "cw": [2, -1, 3], "ow": 1},
-    {"type": "custom", "vw": [-3, 2, -1, 4], "cw": [-2, 3, 1], "ow": -2},
+    {"type": "custom", "vw": [1, -2, 3, -1], "cw": [2, -1, 3, -2], "ow": 1},
+    {"type": "custom", "vw": [-3, 2, -1, 4], "cw": [-2, 3, 1, 2], "ow": -2},
 ]
 
 
@@ -192,7 +192,7 @@ def scalings(n, m, at):
             scaling_for(CUSTOM_SCALINGS[1], n, m),
             scaling_for("Nominal", n, m, pt),
             scaling_for("GradJac", n, m, pt),
-            scaling_for("KKT", n, m, pt, [0.5, -1.5, 2.0][:m]),
+            scaling_for("KKT", n, m, pt, [0.5, -1.5, 2.0, -0.75][:m]),
             # all variable / constraint weights zero, only the objective scaled
             {"type": "custom", "vw": [0] * n, "cw": [0] * m, "ow": 3}]
 
